@@ -1157,6 +1157,14 @@ class Interp:
         t = type(op)
         if t in CMPOPS:
             o = CMPOPS[t]
+            if isinstance(a, FPInt) or isinstance(b, FPInt):
+                fi, other = (a, b) if isinstance(a, FPInt) else (b, a)
+                if o in ('==', '!=') and is_fp_term(other) and other.get_id() == fi.src.get_id():
+                    # int(v) == v  <=>  v is integral (exact: python compares int and float exactly)
+                    r = z3.fpRoundToIntegral(z3.RTZ(), fi.src) == fi.src
+                    return r if o == '==' else z3.Not(r)
+                a = a.term if isinstance(a, FPInt) else a
+                b = b.term if isinstance(b, FPInt) else b
             if is_arr(a) or is_arr(b):
                 return npm.elementwise(self.ctx, o, a, b)
             if isinstance(a, PyType) or isinstance(b, PyType) or isinstance(a, ExcClass) \
@@ -2159,4 +2167,4 @@ BUILTINS = {'len', 'range', 'isinstance', 'abs', 'min', 'max', 'float', 'int', '
             'getattr', 'hasattr', 'type', 'repr', 'id', 'callable', 'reversed', 'slice', 'iter',
             'next', 'frozenset', 'complex', 'round', 'divmod', 'issubclass', 'setattr', 'map',
             'old', 'implies', 'iff', 'ite', 'Sum', 'is_none', 'is_inf', 'is_nan', 'same_object',
-            'arr_eq', 'ghost', 'fp_finite', 'is_view', 'is_scalar', 'is_vector', 'approx', 'same_fp', 'same_fp_bool', 'exceeds', 'below', 'pow', 'floor', 'approx_h', 'atan2', 'floor_', 'le', 'log_', 'exp_', 'tanh_', 'namedtuple'}
+            'arr_eq', 'ghost', 'fp_finite', 'is_view', 'is_scalar', 'is_vector', 'approx', 'same_fp', 'same_fp_bool', 'exceeds', 'below', 'pow', 'floor', 'approx_h', 'atan2', 'floor_', 'le', 'log_', 'exp_', 'tanh_', 'namedtuple', 'is_integral'}
